@@ -71,6 +71,8 @@ impl Project for cascette_formats::archive::ArchiveIndex {
 
 impl Project for cascette_formats::root::RootFile {
     fn project(&self) -> String {
+        // cheap accessors a caller reaches from any parsed value
+        let _ = (self.total_files(), self.named_files());
         // header total_files / named_files are counts derived from the blocks: not projected.
         // Records of a block are a set (looked up by id / name hash): projected in sorted order.
         // Blocks with equal (content, locale) flags are merged and blocks are written in flag
